@@ -200,7 +200,9 @@ func gateName(handshaken bool, authKey string, authed bool) string {
 func genC25(seed uint64, tier string) *Case {
 	g := NewRng(seed)
 	c := &Case{P: map[string]int64{}}
-	filters := []string{"*", "user", "user:deploy", "member-join", "member-join,user:deploy", "query", "query:q1", "member-leave,member-failed"}
+	// (the last four have clauses that overlap: an event matching several of them is still one event)
+	filters := []string{"*", "user", "user:deploy", "member-join", "member-join,user:deploy", "query", "query:q1", "member-leave,member-failed",
+		"user,user:deploy", "*,user", "query,query:q1", "member-join,*"}
 	n := 6 + g.Intn(30)
 	for i := 0; i < n; i++ {
 		switch x := g.Intn(20); {
@@ -276,7 +278,7 @@ func filterMatches(filter, kind, name string) bool {
 	for _, f := range strings.Split(filter, ",") {
 		f = strings.TrimSpace(f)
 		switch {
-		case f == kind:
+		case f == "*" || f == kind:
 			return true
 		case kind == "user" && (f == "user:"+name):
 			return true
